@@ -136,9 +136,18 @@ class Gen:
         return {"blocks": out}
 
 
+SUPPORT_CLASSES = [["normal", "normal_s", "laplace"], ["exponential", "gamma"], ["beta"], ["uniform"]]
+
+
 def _family(d):
-    if d in CONT:
-        return CONT
+    """Distributions that may replace d in the other branch of a Cond with shared addresses: same
+    dtype/shape AND same support. (A value carried across a branch switch into a branch whose support
+    excludes it has density 0; TFP's log_prob does not check supports and returns the analytic
+    continuation, e.g. Exponential.log_prob(-1) is finite - TFP internals are in the trusted base, so
+    such cases are not generated.)"""
+    for cls in SUPPORT_CLASSES:
+        if d in cls:
+            return cls
     return [d]
 
 
